@@ -11,4 +11,4 @@ Extraction "oracle.ml" table_provider mkU mkSol mkVs mkPkg mkProblem
   factb db_idx learnt_okb rup
   causalb onceb exactb eagerb cancel_quietb
   mkGraph truthfulb reachableb refutesb check_core
-  check_encoder check_encoder_final enc_solve estate0 cache0.
+  check_encoder check_encoder_final enc_run fifo_ok estate0 cache0.
